@@ -53,6 +53,14 @@ the way a stale epoch discards them; the response still carries the removed flag
 reads it (into `Config`). -/
 def pushAfterRemoveDiscards : Bool := true
 
+/-- ONE-LINE SWITCH.  `false` = tree before `hooks/fix-c11-deactivate-without-own-change.patch`:
+`clusterServer.DetachDocument` gives up with `ErrChangeNotFound` when the memory DB finds no change
+of the client at or below its checkpoint (presenceless document, attachment that opted out of
+presence, push-only syncs only) – such a client can never be deactivated (C11 finding).  `true` =
+tree with the fix: the presence-clear change is built from the initial lamport and an empty vector
+(it is presence-only, so neither reaches the log).  Only `Server.init` reads it (into `Config`). -/
+def detachWithoutOwnChange : Bool := true
+
 abbrev ClientId := Nat
 abbrev DocId := Nat
 
@@ -132,6 +140,7 @@ structure Config where
   snapshotThreshold : Int := 1000000000
   detachGuardFirst : Bool := Server.detachGuardFirst
   pushAfterRemoveDiscards : Bool := Server.pushAfterRemoveDiscards
+  detachWithoutOwnChange : Bool := Server.detachWithoutOwnChange
 deriving Repr, Inhabited
 
 structure Server where
@@ -713,7 +722,8 @@ def clusterDetach (s : Server) (c : ClientId) (d : DocId) : Server × Except Err
   match s.findActiveClient c with
   | .error e => (s, .error e)
   | .ok info =>
-    if !s.hasLatestChange d c (info.checkpoint d).serverSeq then (s, .error .changeNotFound)
+    if !s.cfg.detachWithoutOwnChange && !s.hasLatestChange d c (info.checkpoint d).serverSeq then
+      (s, .error .changeNotFound)
     else
       match s.findDoc d with
       | none => (s, .error .documentNotFound)
